@@ -519,6 +519,26 @@ func ruleAugFixpoint(c *Ctx) []Obligation {
 						}
 					}
 				}
+				// the slot that is refilled is the current one
+				for _, b := range proc.Blocks {
+					if !inner.Dominates(b) || !blockReaches(b, inner, nil) {
+						continue
+					}
+					for _, in := range b.Instrs {
+						st, isS := in.(*ssa.Store)
+						if !isS {
+							continue
+						}
+						ia, isIA := st.Addr.(*ssa.IndexAddr)
+						if !isIA || !types.Identical(ia.X.Type(), ln.(*ssa.Call).Call.Args[0].Type()) {
+							continue
+						}
+						if ia.Index != ssa.Value(phi) {
+							skips = c.InstrPos(st)
+							obs = append(obs, bad(R, "the slot refilled when a module is finished is the current slot", c.InstrPos(st), "the last pending module is moved into a slot other than the one just finished: a still pending module is overwritten and its augments are neither applied nor reported"))
+						}
+					}
+				}
 				switch {
 				case skips != "":
 					obs = append(obs, bad(R, con, c.InstrPos(ifi), "after the finished module's slot is filled with the last pending module ("+skips+") the index still advances: the module moved into the slot is skipped by this pass"))
